@@ -36,7 +36,8 @@ claim('C18', 'verus',
       'both opcode conversions) carry Verus contracts against one table-driven wire format; the round trip for one instruction, for sequences and for patched forward jumps are lemmas over those contracts, '
       'with no bound on operand values, buffer sizes or sequence length. Failed obligations are reported with a concrete failing instruction sequence found on the real crate by the replay runner, or no-failing-input-found.',
       'Trusted: Verus/Z3, vstd, rewrites N1-N8 (DESIGN.md 3.2), assumed items in evidence.trusted_base (emit_location frame, usize->u32 try_into, mem::replace, opaque const-pool entry constructors). '
-      'Not decided: bincode package round trip, corrupted-file refusal, build-via-package equality, Dora-side readers, jump tables.',
+      'NOT proved, executed by replay runners on the real crates (sampled): the visitor interface (read/dispatch_instruction) and the package clause (decode(encode(p)) == p, same bytes again, truncated / trailing / corrupted files refused without a crash) '
+      'on programs the real front end emits; one genuine crash was repaired (fix: commit), the missing integrity check is an open known finding. Not decided: build-via-package equality, Dora-side readers, jump tables.',
       'DESIGN.md §4 C18')
 
 claim('C20', 'verus',
